@@ -298,7 +298,7 @@ def router_evidence(rule):
     def f(agg, samples, distinct, tier):
         return cov(agg.get('histories', 0), distinct, rule, samples,
                    observed=pick(agg, 'histories', 'ops', 'notifies', 'wildcardNotifies', 'multiReceiverNotifies', 'byValueMultiReceiver', 'calls', 'shrinks',
-                                 'removedKeys', 'measures', 'existsProbes', 'probesAfterShrink', 'fullShrinks', 'lazyRemovals', 'nontrivialCases', 'universeKeys'),
+                                 'removedKeys', 'measures', 'existsProbes', 'probesAfterShrink', 'fullShrinks', 'lazyRemovals', 'nontrivialCases', 'universeKeys', 'specialRuns', 'longLifeCycles', 'deepKeyRuns', 'throwingObserverRuns'),
                    operations=agg.get('opCount', {}), signatures_by_depth=agg.get('signatures', {}), routers=agg.get('routers', {}))
     return f
 
@@ -314,7 +314,8 @@ SPECS['C06'] = dict(
     evidence=router_evidence('case = seeded history (2-70 steps) of subscribe / unsubscribe / mute / invalidate / shrink / notify on SubjectRouter or ConcurrentSubjectRouter (one thread) over a colliding name '
                              'alphabet {a, ab, a.b, a+, b, ""} at depth 1-3, patterns with concrete, wildcard and regex levels (including regexes matching several siblings, nothing, the empty name, and '
                              'regex-looking plain strings); one of six signatures per depth. Receivers, invocation counts, received argument values for every receiver and the return value are compared with an '
-                             'independent level-by-level match over the model. non-trivial = a notify that reached >=2 observers or a shrink; distinct = distinct histories'),
+                             'independent level-by-level match over the model. non-trivial = a notify that reached >=2 observers or a shrink; distinct = distinct histories. 4 per mille of the cases are fixed-answer scenarios '
+                             'instead: a key that lives through up to 140000 subscriptions next to a resident observer, keys and patterns of 255-512 levels, an observer that throws'),
     assumptions=ROUTER_ASSUME,
     manifest=dict(engine='h_router', text='Lock-step routing-tree model with independently recomputed matching; every receiver checks the argument values it got (by-value payloads show if they were consumed), '
                   'for both router classes, under ASan/UBSan.', note=SAN_NOTE, technique='runtime monitoring: lock-step reference model of the routing tree under ASan/UBSan'))
@@ -326,7 +327,8 @@ SPECS['C13'] = dict(
     evidence=router_evidence('C06 generator weighted towards unsubscribe / invalidate / shrink (concrete, regex, wildcard patterns of depth 1-4) / re-subscribe. After every operation the stored-key set is measured '
                              'with exists() on all 258 concrete keys of the universe: prefix-closed; grows only by the prefixes of a subscribed key; shrinks only in shrink, and then only by dead keys whose parent '
                              'lies along the pattern; keys at or above a held subscription stay; a full-depth wildcard shrink leaves no dead key; exists(pattern) == some stored key matches level by level; '
-                             'depth() == 1 + longest stored key; a fixed probe set of notifies after each shrink reaches exactly the model receivers. non-trivial = history with a shrink; distinct = distinct histories'),
+                             'depth() == 1 + longest stored key; a fixed probe set of notifies after each shrink reaches exactly the model receivers. non-trivial = history with a shrink; distinct = distinct histories. '
+                             '4 per mille of the cases are fixed-answer scenarios instead: keys of 255-512 levels (depth(), exists(), full-depth shrink), and a shrink after an observer threw'),
     assumptions=ROUTER_ASSUME + ['which dead siblings under a visited node a shrink drops is not prescribed: any dead key whose parent lies along the pattern may go',
                                  'a key whose only subscriptions are invalidated but not yet lazily removed may stay'],
     manifest=dict(engine='h_router', text='Black-box structural oracle: the stored-key set is measured through exists() over the whole finite key universe after every operation and checked against '
